@@ -504,8 +504,8 @@ def gen_scenario(rng) -> Dict[str, Any]:
     elif delivery == "--query=":
         argv.append("--query=" + qtext)
     else:
-        pad_l = rng.choice(("", "\n", "  ", "\n\n \t"))
-        pad_r = rng.choice(("", "\n", "\n\n", " \n"))
+        pad_l = rng.choice(("", "\n", "  ", "\n\n \t", "\r\n"))
+        pad_r = rng.choice(("", "\n", "\n\n", " \n", "\r\n", "\r", "\r\n\r\n"))
         body = qtext
         r2 = rng.random()
         if r2 < 0.15 and body:
